@@ -63,26 +63,62 @@ Theorem C17_F4_refuted :
 Proof. exact F4_refuted. Qed.
 Print Assumptions C17_F4_refuted.
 
+(* never both kinds for one module object, on every schedule of every history in which all
+   builtin_glue registrations precede the first extraction (g_late = false: built-in glue is
+   registered when stackscope is imported).  [EvImm f n o]: built-in f run at registration time
+   for module n whose object was o; [EvCallB f n (Some o)]: built-in f run by the installation
+   routine on a visit of name n that found object o. *)
+Theorem C17_never_both :
+  forall w scanned ls n o,
+    let s := run src_cfg w ls (init w scanned) in
+    g_late s = false ->
+    forall d, In (EvCallM o n d) (log s) ->
+    (forall f, ~ In (EvCallB f n (Some o)) (log s)) /\ (forall f, ~ In (EvImm f n o) (log s)).
+Proof. exact (fun w scanned ls n o => @never_both w scanned ls n o eq_refl). Qed.
+Print Assumptions C17_never_both.
+
+Example C17_never_both_hypothesis_met :
+  let s := run src_cfg nb_world nb_hist (init nb_world true) in
+  g_late s = false /\ In (EvCallM 0 0 (Some 0)) (log s) /\ In (EvImm 1 1 1) (log s).
+Proof. exact never_both_hyp_met. Qed.
+
+(* TIMELINESS, all schedules.  Thread t is not inside add_glue_as_needed at s1; module object o
+   is in sys.modules under n with its glue not yet consumed; no removal/replacement has happened
+   since the snapshot the cache value stems from nor since the snapshot of a scan in progress
+   (no_removal_since_last_scan = the two ghost flags), and none happens in the window ls2.  Then
+   whenever t returns normally from add_glue_as_needed within the window, o's glue has been called
+   (by t or by another thread) -- for every interleaving ls2 of any number of threads and
+   environment steps; since the statement holds for the window that ends with the returning step,
+   the call precedes the return.  C17_F4_refuted shows the flags cannot be dropped. *)
+Theorem C17_timely :
+  forall w scanned ls1 ls2 t n o,
+    1 <= w_base w ->
+    let s1 := run src_cfg w ls1 (init w scanned) in
+    (thr s1 t = PIdle \/ exists b, thr s1 t = PDone b) ->
+    pendingM w s1 n o -> g_since_cache s1 = false -> g_since_snap s1 = false ->
+    let s2 := run src_cfg w ls2 s1 in
+    g_nrem s2 = g_nrem s1 ->
+    forall new, log s2 = new ++ log s1 -> In (EvRet t true) new -> calledM s2 o.
+Proof. exact (fun w scanned ls1 ls2 t n o => @timely w scanned ls1 ls2 t n o eq_refl eq_refl). Qed.
+Print Assumptions C17_timely.
+
+(* 3 threads, 4 modules: thread 0 finished a scan, thread 1 is inside one, thread 2 idle, m3 pending *)
+Example C17_timely_hypotheses_met :
+  let s1 := run src_cfg tm_world tm_hist (init tm_world true) in
+  thr s1 0 = PDone true /\ is_pcall (thr s1 1) = true /\ thr s1 2 = PIdle
+  /\ pendingM tm_world s1 3 3 /\ g_since_cache s1 = false /\ g_since_snap s1 = false.
+Proof. exact timely_hyp_met. Qed.
+
+(* the invariant behind C17_timely, for every reachable state: mutual exclusion of the locked
+   region; the cache value is 0 or the length of a snapshot all of whose modules are served (as
+   long as nothing was removed since); the scan in progress has served every name it has passed *)
+Theorem C17_cache_invariant :
+  forall w scanned s, 1 <= w_base w -> reachable src_cfg w scanned s -> GI w s.
+Proof. exact (fun w scanned s => @GI_reachable src_cfg w eq_refl eq_refl scanned s). Qed.
+Print Assumptions C17_cache_invariant.
+
 (* ---------------------------------------------------------------------------------------------
-   NOT PROVED (statements kept; each is checked by the direct oracle of harness/c17.py on every
-   generated history and checkpoint-driven schedule, see CONFIG["unproved_legs"]):
-
-   C17_timely (under no_removal_since_last_scan):
-     forall w scanned ls1 t ls2 n o, 1 <= w_base w ->
-       let s1 := run src_cfg w ls1 (init w scanned) in
-       (thr s1 t = PIdle \/ exists b, thr s1 t = PDone b) -> pendingM w s1 n o ->
-       g_since_cache s1 = false -> g_since_snap s1 = false ->
-       let s2 := run src_cfg w (LThr t :: ls2) s1 in
-       g_nrem s2 = g_nrem s1 -> first_return_of t (LThr t :: ls2) s1 = Some true -> calledM s2 o.
-     (proof route worked out in the builder's notes: invariants L1 mutual exclusion, A1-A5 "cache value
-      = length of a snapshot all of whose modules are settled", K1-K4 loop invariant of the scan in
-      progress; the ghost fields g_since_*, g_snap_* of M_Glue.st exist for this proof.)
-     C17_F4_refuted above is the witness that the hypothesis cannot be dropped.
-
-   C17_never_both (under g_bad = false, i.e. built-in glue registered before the module's first import):
-     forall w scanned ls n o f d, let s := run src_cfg w ls (init w scanned) in g_bad s = false ->
-       ~ (In (EvCallM o n d) (log s) /\ In (EvCallB f n (Some o)) (log s)) /\ ~ In (EvImm f n) (log s).
-     C17_never_both_refuted above is the witness that the hypothesis cannot be dropped (candidate
-     finding C17-G1: reproduced on the real implementation by harness/c17.py, extra_legs).
-
-   C17_at_most_once for built-in functions: forall f, at most one EvCallB f / EvImm f event. *)
+   NOT PROVED (checked by the direct oracle of harness/c17.py on every generated case):
+   - timeliness for a module whose pending glue is a BUILT-IN function (pendingB): same route, the
+     pend-table half of "settled" would have to be added to GI;
+   - C17_at_most_once for built-in functions (at most one EvCallB f / EvImm f event per f). *)
